@@ -13,6 +13,7 @@ Inductive out :=
 | OQ (a b : Z)                      (* Q a b      pair of integers *)
 | OS (s : list Z)                   (* S hex      byte string *)
 | OF (bits : Z)                     (* F bits     float bit pattern *)
+| OL (l : list Z)                   (* L a,b,..   list of integers *)
 | OUB                               (* model only: out-of-bounds unchecked access *)
 | OFuel                             (* model only: fuel exhausted *)
 | OX.                               (* unknown operation *)
@@ -41,6 +42,7 @@ Definition out_eqb (a b : out) : bool :=
   | OQ a1 b1, OQ a2 b2 => (a1 =? a2) && (b1 =? b2)
   | OS s, OS t => zlist_eqb s t
   | OF x, OF y => x =? y
+  | OL s, OL t => zlist_eqb s t
   | _, _ => false
   end.
 
